@@ -3,6 +3,7 @@ package main
 import (
 	"fmt"
 	"go/token"
+	"go/types"
 	"strconv"
 	"strings"
 	"unicode"
@@ -68,6 +69,9 @@ func stdCall(e *ssaEval, call ssa.CallInstruction, args []sv) (sv, bool) {
 	}
 	name := callName(call)
 	if r, ok := pureLibCall(e, name, args); ok {
+		return r, true
+	}
+	if r, ok := builderCallG(e, name, args); ok {
 		return r, true
 	}
 	str := func(i int) (string, bool) {
@@ -311,4 +315,227 @@ func errOracle(op token.Token, x, y sv) (bool, bool) {
 		}
 	}
 	return false, false
+}
+
+// errNameG: the PostScript error name a value of the error-name type denotes — a typed constant
+// (`const eUndefined Name = "undefined"`), a conversion of a constant, or the initial value of a
+// package-level variable; these are one and the same name.
+func (c *Ctx) errNameG(v ssa.Value) string {
+	if s := c.nameConst(v); s != "" {
+		return s
+	}
+	return c.errNameOfArg(v)
+}
+
+// cmpHelperG: the generic helpers of package cmp (Compare, Less, Or) are evaluated from their
+// library source, so `a < b`, `cmp.Compare(a, b) < 0` and `cmp.Or(c1, c2) < 0` are one comparator.
+func cmpHelperG(fn *ssa.Function) bool {
+	if o := fn.Origin(); o != nil {
+		fn = o
+	}
+	if fn.Pkg == nil || fn.Object() == nil || fn.Pkg.Pkg.Path() != "cmp" {
+		return false
+	}
+	switch fn.Object().Name() {
+	case "Compare", "Less", "Or", "isNaN":
+		return true
+	}
+	return false
+}
+
+// pfbFieldG: addr is the address of field f of the decoder the evaluated method was called on
+// (receiver address "r"), directly or inside a struct embedded in it — not a field of the same
+// name of some other object (a local header struct).
+func pfbFieldG(addr, f string) bool {
+	return strings.HasPrefix(addr, "r.") && strings.HasSuffix(addr, "."+f)
+}
+
+// ---------------------------------------------------------------------------------------------
+// struct values with known fields: a struct that is loaded as a whole from modelled field cells
+// (`return *hdr`), handed on (returned, passed, extracted from a tuple) and stored as a whole
+// (`*local = result`) keeps the values of its fields, so that `s.f` of the copy is what was
+// stored to `orig.f`.  tup holds the field values in declaration order (unknown where the cell
+// was never written); s is the rendering as before.
+
+func (e *ssaEval) structFieldsG(addr string, t types.Type) []sv {
+	st, ok := t.Underlying().(*types.Struct)
+	if !ok {
+		return nil
+	}
+	out := make([]sv, st.NumFields())
+	for i := range out {
+		key := addr + "." + st.Field(i).Name()
+		if v, ok := e.mem[key]; ok {
+			out[i] = v
+		} else if _, isStruct := st.Field(i).Type().Underlying().(*types.Struct); isStruct {
+			if v, ok := e.structAt(key); ok {
+				v.tup = e.structFieldsG(key, st.Field(i).Type())
+				out[i] = v
+			}
+		}
+	}
+	return out
+}
+
+func (e *ssaEval) storeStructG(addr string, v sv, t types.Type) {
+	st, ok := t.Underlying().(*types.Struct)
+	if !ok || len(v.tup) != st.NumFields() {
+		return
+	}
+	// the cell holds its fields, not a second copy of the whole that later field stores would
+	// leave stale
+	delete(e.mem, addr)
+	for i := 0; i < st.NumFields(); i++ {
+		key := addr + "." + st.Field(i).Name()
+		f := v.tup[i]
+		switch {
+		case f.k == svStruct && len(f.tup) > 0:
+			e.storeStructG(key, f, st.Field(i).Type())
+		case f.known():
+			e.mem[key] = f
+		default:
+			delete(e.mem, key)
+		}
+	}
+}
+
+// ---------------------------------------------------------------------------------------------
+// strings.Builder / bytes.Buffer as an accumulator of text: a local builder is a cell whose
+// contents are the concatenation of what was written to it, so that `parts = append(parts, x);
+// strings.Join(parts, sep)` and `b.WriteString(x)` … `b.String()` evaluate to the same string.
+// A write whose data is not known poisons the contents (String() is then not evaluated).
+
+func fmtOperandsG(e *ssaEval, list sv) ([]any, bool) {
+	if list.k == svNil {
+		return nil, true
+	}
+	el, ok := e.elems(list)
+	if !ok {
+		return nil, false
+	}
+	var vals []any
+	for _, x := range el {
+		switch x.k {
+		case svInt:
+			vals = append(vals, x.i)
+		case svString:
+			vals = append(vals, x.s)
+		case svBool:
+			vals = append(vals, x.b)
+		case svFloat:
+			vals = append(vals, x.f)
+		default:
+			return nil, false
+		}
+	}
+	return vals, true
+}
+
+func builderCallG(e *ssaEval, name string, args []sv) (sv, bool) {
+	method, isFmt := "", false
+	for _, t := range []string{"(*strings.Builder).", "(*bytes.Buffer)."} {
+		if strings.HasPrefix(name, t) {
+			method = name[len(t):]
+		}
+	}
+	switch name {
+	case "fmt.Fprintf", "fmt.Fprint", "fmt.Fprintln":
+		if len(args) >= 1 && args[0].k == svAddr && args[0].typ != nil {
+			if ts := args[0].typ.String(); ts == "*strings.Builder" || ts == "*bytes.Buffer" {
+				method, isFmt = name[4:], true
+			}
+		}
+	}
+	if method == "" || len(args) == 0 || args[0].k != svAddr {
+		return sv{}, false
+	}
+	key := args[0].s + "#text"
+	cur, has := e.mem[key]
+	if !has {
+		cur = sv{k: svString}
+	}
+	poison := func() (sv, bool) {
+		e.mem[key] = sv{}
+		return sv{}, false
+	}
+	write := func(t string) {
+		if cur.k == svString {
+			e.mem[key] = sv{k: svString, s: cur.s + t}
+		}
+	}
+	okErr := func(n int) sv { return sv{k: svTuple, tup: []sv{intV(int64(n)), {k: svNil}}} }
+	if isFmt {
+		switch method {
+		case "Fprintf":
+			if len(args) == 3 && args[1].k == svString {
+				if vals, ok := fmtOperandsG(e, args[2]); ok {
+					t := fmt.Sprintf(args[1].s, vals...)
+					write(t)
+					return okErr(len(t)), true
+				}
+			}
+		case "Fprint", "Fprintln":
+			if len(args) == 2 {
+				if vals, ok := fmtOperandsG(e, args[1]); ok {
+					t := fmt.Sprint(vals...)
+					if method == "Fprintln" {
+						t = fmt.Sprintln(vals...)
+					}
+					write(t)
+					return okErr(len(t)), true
+				}
+			}
+		}
+		return poison()
+	}
+	switch method {
+	case "WriteString":
+		if len(args) == 2 && args[1].k == svString {
+			write(args[1].s)
+			return okErr(len(args[1].s)), true
+		}
+		return poison()
+	case "WriteByte":
+		if len(args) == 2 && args[1].k == svInt {
+			write(string([]byte{byte(args[1].i)}))
+			return sv{k: svNil}, true
+		}
+		return poison()
+	case "WriteRune":
+		if len(args) == 2 && args[1].k == svInt {
+			t := string(rune(args[1].i))
+			write(t)
+			return okErr(len(t)), true
+		}
+		return poison()
+	case "Write":
+		if len(args) == 2 {
+			if el, ok := e.elems(args[1]); ok {
+				buf := make([]byte, 0, len(el))
+				for _, x := range el {
+					if x.k != svInt {
+						return poison()
+					}
+					buf = append(buf, byte(x.i))
+				}
+				write(string(buf))
+				return okErr(len(buf)), true
+			}
+		}
+		return poison()
+	case "String":
+		if cur.k == svString {
+			return cur, true
+		}
+	case "Len":
+		if cur.k == svString {
+			return intV(int64(len(cur.s))), true
+		}
+	case "Grow":
+		return sv{}, true
+	case "Reset":
+		e.mem[key] = sv{k: svString}
+		return sv{}, true
+	}
+	return sv{}, false
 }
